@@ -1944,7 +1944,10 @@ class FileBuilder:
             dirs_to_remove.discard(os.path.normcase(dir_))
 
         for filename in self._new_cache.created_files():
-            if not self._old_cache.created_file(filename):
+            # Also remove a file from the previous build if we rebuilt it. If
+            # it existed beforehand, then restore_all() brings it back.
+            if (not self._old_cache.created_file(filename) or
+                    self._new_cache.rebuilt_file(filename)):
                 FileBuilder._try_to_remove_file(filename)
         FileBuilder._remove_empty_dirs(list(dirs_to_remove))
 
